@@ -20,8 +20,6 @@ Require Import RIO.TokLogic RIO.HtmlTokProofs RIO.TokShift.
 Close Scope N_scope.
 Open Scope nat_scope.
 
-Definition tag_ok (t : list N) : Prop := t = [] \/ In t raw_text_elements.
-
 (* ------------------------------------------------------------------------------------------------------ *)
 (* What the proof uses about the tokenizer beyond stability and restart: the facts a totality proof of [next]
    provides, for an invariant [W d s] of tokenizer states. *)
@@ -1082,3 +1080,43 @@ Proof.
   - apply Forall_forall. auto.
 Qed.
 End Body.
+
+(* ------------------------------------------------------------------------------------------------------ *)
+(* The tokenizer facts hold for the invariant [wf0] of RIO.HtmlTokProofs (totality of [next], C16_next_total),
+   for every lowercase oracle that is ASCII lowercasing on the ten raw-text element names. *)
+Lemma raw_elements_lower : forallb (fun t => str_eqb (map ascii_lower t) t) raw_text_elements = true.
+Proof. vm_compute. reflexivity. Qed.
+
+Theorem tok_facts_wf0 lower : lower_ok lower -> tok_facts lower wf0.
+Proof.
+  intros LO. constructor.
+  - intros d s (_ & Hp & Ho & _). auto.
+  - intros d s (Hb & _). exact Hb.
+  - intros d s (_ & _ & _ & _ & Ht & _). exact Ht.
+  - intros d d' s (Hb & Hp & Ho & Ha & Ht & Hn). unfold wf0. rewrite app_length. repeat apply conj; auto; try lia.
+    eapply Forall_impl; [|exact Ha]. intros a [[A1 A2] [A3 A4]]. repeat split; auto; lia.
+  - intros d ctx. apply new_fragment_wf0.
+  - intros d s HW He. destruct (next lower d s) as [r s'] eqn:En.
+    destruct (next_spec lower d s r s' LO HW En) as (Hwf & Hrs & _). cbn [snd]. split; [apply wf0_of; exact Hwf|].
+    rewrite <- Hrs. apply (wf_start _ _ Hwf).
+  - intros d s tk HW He Hf Hne Hee. destruct (next lower d s) as [r s'] eqn:En. cbn [fst snd] in *.
+    destruct (next_spec lower d s r s' LO HW En) as (Hwf & Hrs & _ & _ & _ & Hp). apply (Hp tk); assumption.
+  - intros d s tk HW He Hf. destruct (next lower d s) as [r s'] eqn:En. cbn [fst snd] in *.
+    destruct (next_spec lower d s r s' LO HW En) as (Hwf & Hrs & Hd1 & Hd2 & _).
+    destruct (tag_name lower d s') as [a s''] eqn:Et. cbn [snd].
+    destruct (tag_name_spec lower d s' a s'' Hwf (conj Hd1 Hd2) Et) as (Hwf' & _). apply wf0_of; exact Hwf'.
+  - intros t Hin. pose proof raw_elements_lower as H. rewrite forallb_forall in H. specialize (H t Hin).
+    apply str_eqb_spec in H. rewrite <- H at 2. apply LO. rewrite H. exact Hin.
+Qed.
+
+Lemma lower_ok_ascii : lower_ok (map ascii_lower).
+Proof. intros t _. reflexivity. Qed.
+
+(* the split law of the HTML stage, for every state of the stage: holds unless the run on c1 ++ c2 ends in the error state *)
+Theorem hfb_split_law lower sel : lower_ok lower -> forall F, split_law_if stage (stage_tf lower sel) stage_ok (StHtml F).
+Proof. intros LO F. exact (html_stage_split_law_if lower sel wf0 (tok_facts_wf0 lower LO) F). Qed.
+
+Theorem body_chunk_invariance lower sel ctok fs c cs : lower_ok lower ->
+  Forall stage_ok (fst (cf stage (stage_tf lower sel) (stages_of ctok fs) (concat (c :: cs)))) ->
+  body_run lower sel ctok fs (c :: cs) = body_run lower sel ctok fs [concat (c :: cs)].
+Proof. intros LO. exact (body_chunk_invariant lower sel wf0 (tok_facts_wf0 lower LO) ctok fs c cs). Qed.
